@@ -80,6 +80,7 @@ struct Box {
     std::vector<Event> events;
     ExtMem ext;
     bool log_ext = true;
+    u64 ext_accesses = 0, ext_budget = ~0ull; // VerifBudget is thrown past this many external accesses
     // host handlers may call back into the API (re-entrancy); set per run
     int reenter_mode = 0;
     u64 handler_calls[4] = {0, 0, 0, 0};
